@@ -59,6 +59,17 @@ Theorem nothing_follows_a_refusal : forall fuel flags maxf first s, only_last_en
 Proof. exact refusal_or_close_is_final. Qed.
 Print Assumptions nothing_follows_a_refusal.
 
+(* a trailer section that runs past server.max-request-field-size ends the connection after the response, whether or not its end
+   has been received: the rest of such a stream is never parsed as a request (both keep-alive decisions are re-read from h1.c) *)
+Theorem overlong_trailers_close_the_connection : forall maxf line rest acc body rest' ka cut,
+  line_nonul (line ++ rest) [] = Some (line, rest) -> span_hex line = ([0], [13; 10]) ->
+  prefixb CRLF rest = false ->
+  (maxf < N.of_nat (length line + length rest))%N ->
+  (forall k, find_crlfcrlf (CRLF ++ rest) O = Some k -> (maxf < N.of_nat (length line + k - 2))%N) ->
+  dechunk_req 1 maxf (line ++ rest) acc = ChDone body rest' ka cut -> ka = false.
+Proof. exact overlong_trailers_end_the_connection. Qed.
+Print Assumptions overlong_trailers_close_the_connection.
+
 (* non-vacuity: a chunked POST whose body is a complete GET request, followed by a real GET: two requests, not three *)
 Example smuggling_shape_is_two_requests :
   let h := [80;79;83;84;32;47;101;32;72;84;84;80;47;49;46;49;13;10;72;111;115;116;58;32;97;13;10;84;114;97;110;115;102;101;114;45;69;110;99;111;100;105;110;103;58;32;99;104;117;110;107;101;100;13;10;13;10] in
